@@ -91,7 +91,9 @@ func (p fprops) yang(kind string) string {
 	if p.minEl != nil {
 		fmt.Fprintf(&b, " min-elements %d;", *p.minEl)
 	}
-	if p.maxEl != nil {
+	if p.maxEl != nil && *p.maxEl == c01unbounded {
+		b.WriteString(" max-elements unbounded;")
+	} else if p.maxEl != nil {
 		fmt.Fprintf(&b, " max-elements %d;", *p.maxEl)
 	}
 	if p.presence != nil {
@@ -99,6 +101,9 @@ func (p fprops) yang(kind string) string {
 	}
 	return b.String()
 }
+
+// "max-elements unbounded" as a number: above every number max-elements can state (a uint32)
+const c01unbounded = 4294967296
 
 type frefine struct {
 	path []string
@@ -232,6 +237,9 @@ func (g *c01gen) props(kind string, configFalseAbove bool, isKey bool) fprops {
 			p.minEl = &n
 		case 1:
 			n := 1 + g.r.Intn(4)
+			p.maxEl = &n
+		case 3:
+			n := c01unbounded
 			p.maxEl = &n
 		case 2:
 			lo, hi := 1+g.r.Intn(2), 3+g.r.Intn(3)
@@ -449,7 +457,14 @@ func (g *c01gen) uses(depth int, cfgFalse bool, within string, siblingNames map[
 				}
 			}
 		}
-		if t.kind == "list" && g.r.Chance(60) {
+		if t.kind == "list" && t.p.maxEl != nil && g.r.Chance(70) {
+			// a number where the grouping says unbounded, unbounded where it says a number
+			n := c01unbounded
+			if *t.p.maxEl == c01unbounded {
+				n = 2 + g.r.Intn(5)
+			}
+			patch.maxEl = &n
+		} else if t.kind == "list" && g.r.Chance(60) {
 			// refining the element bounds, down to 0 and up
 			switch g.r.Intn(3) {
 			case 0:
@@ -460,6 +475,9 @@ func (g *c01gen) uses(depth int, cfgFalse bool, within string, siblingNames map[
 				patch.minEl = &n
 			default:
 				n := 5 + g.r.Intn(4)
+				if g.r.Chance(30) {
+					n = c01unbounded
+				}
 				patch.maxEl = &n
 			}
 		}
@@ -768,7 +786,10 @@ func c01dump(defs []meta.Definition) string {
 				n := li.MinElements()
 				p.minEl = &n
 			}
-			if li.IsMaxElementsSet() {
+			if li.IsUnboundedSet() && li.Unbounded() {
+				n := c01unbounded
+				p.maxEl = &n
+			} else if li.IsMaxElementsSet() {
 				n := li.MaxElements()
 				p.maxEl = &n
 			}
@@ -905,7 +926,7 @@ func c01musts(c *core.Ctx) {
 
 func C01(c *core.Ctx) {
 	c01musts(c)
-	c.Rule = "generated module sets: a main module whose body is built from leaves, containers, keyed lists and uses of groupings placed at module level, in the using container (sibling scope), in a submodule and in an imported module (prefixed uses), groupings nested in groupings, a grouping used several times with different refines (description, default, mandatory, config, min-elements incl. 0, max-elements) and uses-augments (into containers and lists of the copy), module-level augments into plain and into grouping-expanded containers in textual order, config false stated on some nodes; the compiled tree (kind, name, order, effective config, description, default, mandatory, min-/max-elements of every node) compared with the Lean expansion of the factored form, with the harness's own expansion, and with the compiled tree of the same schema written inline without any grouping, augment or second file; also: a leaf, container or list named like the grouping used next to it, a uses whose augment uses the same grouping again, a module grouping named like the imported grouping it wraps, presence stated and refined, leaves guarded by an enabled feature of the module (the load has imports). non-trivial = module set with ≥2 uses, ≥1 refine and ≥1 augment; distinct by module set"
+	c.Rule = "generated module sets: a main module whose body is built from leaves, containers, keyed lists and uses of groupings placed at module level, in the using container (sibling scope), in a submodule and in an imported module (prefixed uses), groupings nested in groupings, a grouping used several times with different refines (description, default, mandatory, config, min-elements incl. 0, max-elements as a number and as 'unbounded', each refined into the other) and uses-augments (into containers and lists of the copy), module-level augments into plain and into grouping-expanded containers in textual order, config false stated on some nodes; the compiled tree (kind, name, order, effective config, description, default, mandatory, min-/max-elements of every node) compared with the Lean expansion of the factored form, with the harness's own expansion, and with the compiled tree of the same schema written inline without any grouping, augment or second file; also: a leaf, container or list named like the grouping used next to it, a uses whose augment uses the same grouping again, a module grouping named like the imported grouping it wraps, presence stated and refined, leaves guarded by an enabled feature of the module (the load has imports). non-trivial = module set with ≥2 uses, ≥1 refine and ≥1 augment; distinct by module set"
 	c.Assumptions = append(c.Assumptions,
 		"every leaf is of type string (types are C02); if-feature, choice/case, deviations and rpc/notification content are not generated here (C11 covers feature guards, C09/C06 choices)",
 		"explicit 'config true' is never written (only 'config false'), so every generated module set is valid wherever a grouping is used")
